@@ -51,6 +51,13 @@ def main():
     ap.add_argument("--json", default=None)
     a = ap.parse_args()
     props = a.props.split(",") if a.props else claimed()
+    from xyzsa.cli import run_property
+    for p in props:
+        code, f, c, lines = run_property(p, "quick", "/repo", write=False, quiet=True)
+        if code != 0:
+            print("check %s does not pass on the unchanged tree (exit %d); fix that first" % (p, code))
+            print("\n".join(l for l in lines if "VIOLATION" in l or "ANALYSIS" in l or l.startswith("  xyzpy"))[:1500])
+            sys.exit(3)
     jobs = []
     for d in sorted(glob.glob("/verif/seeded/*/patch.diff")):
         jobs.append((os.path.basename(os.path.dirname(d)), d, props))
